@@ -537,6 +537,7 @@ type Clause struct {
 	Locs []Expr // for modifies
 	Line string // file:line
 	Name string // optional label
+	When Expr   // modifies ... when cond
 }
 
 type FuncSpec struct {
@@ -692,8 +693,12 @@ func (ss *SpecSet) parseFile(path, pkg string) error {
 		case "func":
 			p := pkg
 			target := rest
-			// extern specs give the full path: func unicode/utf8.DecodeRune
-			if strings.Contains(rest, "/") || (pkg == "" && strings.Contains(rest, ".")) {
+			// external functions: `func extern sort.Sort` (or a path with '/')
+			if strings.HasPrefix(rest, "extern ") {
+				target = strings.TrimSpace(strings.TrimPrefix(rest, "extern "))
+				p = ""
+			}
+			if strings.Contains(target, "/") || (pkg == "" && strings.Contains(target, ".")) {
 				p = ""
 			}
 			cur = &FuncSpec{Target: target, Pkg: p, FilePkg: pkg, Loops: map[int][]*Clause{}, LoopMods: map[int][]*Clause{}, Line: where, Skip: map[string]bool{}, Unroll: map[int]int{}}
@@ -701,10 +706,16 @@ func (ss *SpecSet) parseFile(path, pkg string) error {
 			if p != "" {
 				key = p + "." + target
 			}
-			if _, dup := ss.Funcs[key]; dup {
-				return fail(fmt.Errorf("duplicate contract for %s", key))
+			if old, dup := ss.Funcs[key]; dup {
+				// assumed contracts of external functions may be extended by
+				// several contract files (clauses are added)
+				if p != "" {
+					return fail(fmt.Errorf("duplicate contract for %s", key))
+				}
+				cur = old
+			} else {
+				ss.Funcs[key] = cur
 			}
-			ss.Funcs[key] = cur
 		case "requires", "ensures":
 			if cur == nil {
 				return fail(fmt.Errorf("clause outside func block"))
@@ -732,6 +743,14 @@ func (ss *SpecSet) parseFile(path, pkg string) error {
 			}
 			cur.HasMod = true
 			c := &Clause{Kind: kw, Src: rest, Line: where}
+			if k := strings.Index(rest, " when "); k >= 0 {
+				w, err := parseExpr(rest[k+6:])
+				if err != nil {
+					return fail(err)
+				}
+				c.When = w
+				rest = strings.TrimSpace(rest[:k])
+			}
 			if rest != "nothing" {
 				for _, part := range splitTop(rest) {
 					e, err := parseExpr(part)
